@@ -55,7 +55,7 @@ CLAIMED['C19'] = dict(
     design='5/C19',
     note='Trusted: Lean kernel + Mathlib order/field lemmas; IEEE rounding is outside the rational model (float findings F13c/F13d). deep_distance: modelled (Model/Distance/Deep.lean, op DDIST: the reported number is the model numerator over the model denominator on the ordered universe); '
          'its range is a theorem for nested dictionaries of any depth and for lists of scalars compared position by position, without a type change (C19_deep_distance_nested_dicts, C19_deep_distance_positional_lists: numerator <= denominator + number of type changes), the property is refuted in the model '
-         'where the code refutes it (C19_N_deep_distance_exceeds_one = F13a); the positivity clause is a theorem for nested dictionaries all of whose parts are countable (C19_deep_distance_positive_nested_dicts; F17a-c are exactly the excluded inputs); '
+         'where the code refutes it (C19_N_deep_distance_exceeds_one = F13a); the positivity clause is a theorem for nested dictionaries all of whose parts are countable (C19_deep_distance_positive_nested_dicts; F17a-c are exactly the excluded inputs); for two sets / frozensets of scalars the numerator, the denominator and the gap of 2 between them are theorems for any item hash (C19_deep_distance_sets, C19_deep_distance_frozensets, C19_deep_distance_positive_sets, C19_N_set_of_none); the distance is taken on the tree before added / removed pairs are folded (diffUnmerged), as in DeepDiff.__init__; '
          'lists in the default (difflib) mode, mixed nestings and ignore_order are observed, not proved. '
          'Known findings F13a, F13b, F17a, F17b, F17c, F25; F24, F49, F53, F54, F60 fixed in /repo.',
     technique='Lean 4 proof (rational arithmetic; induction over nested dictionaries for deep_distance) + differential correspondence; deep_distance outside the proved domain by evaluation')
@@ -189,7 +189,7 @@ CLAIMED['C11'] = dict(
          'cleaning in _diff_dict, exclude_types, the DeepHash pre-image of set members): values that are similar under the options (position by position, dict keys by cleaned key: '
          'letter case, str/bytes, int/float of equal value, equal significant-digit rendering, within math_epsilon, excluded types, private keys) give an empty diff, for every option set, '
          'threshold, size and nesting, both alignment modes and every alignment oracle; each normaliser is proved to land in '
-         'the similarity relation. The model is tied to the code by comparing the complete text view under random option '
+         'the similarity relation; the relation is reflexive on well-formed values, so a copy gives an empty diff under every option set, colliding cleaned keys included (C11_copy_empty_all_options). The model is tied to the code by comparing the complete text view under random option '
          'sets. Clauses (2) plain-empty => option-empty and (3) no option makes DeepDiff raise, and the datetime / nan / enum options, are decided on the implementation over generated '
          'values x single options and all pairs; their Lean theorems are not proved.',
     design='5/C11',
